@@ -1,7 +1,8 @@
 (** * SlowFacts2b (part B): the big-integer digit comparison of `negative_digit_comp`.
 
-    Stack back-end ([alloc c = false]).  Under explicit size hypotheses (the two scaled integers
-    fit the capacity [BIGINT_LIMBS]) the scaling code does not panic, keeps both operands
+    Both back-ends.  Under explicit size hypotheses (the two scaled integers fit [BIGINT_LIMBS]
+    limbs: the fixed capacity of the stack vector, and a lower bound of the heap vector's
+    capacity, which `shl_limbs` tests) the scaling code does not panic, keeps both operands
     normalised, and [vcompare] of the results is the comparison of the exact integers
       N * 2^max(0,-beta)   and   Mh * 5^k * 2^max(0,beta),
     which is the comparison of N / 10^k with Mh * 2^e ([scaled_compare_mid]). *)
@@ -15,7 +16,7 @@ Open Scope Z_scope.
 Local Opaque Z.pow.
 Arguments Z.pow : simpl never.
 
-(** ** 1. Normalisation is preserved by the multiplications of [pow5] *)
+(** ** 1. Normalisation and a capacity lower bound are preserved by the multiplications of [pow5] *)
 
 Lemma small_mul_normalized c v y v' :
   limbs_ok (vl v) -> is_normalized (vl v) = true -> 0 < lval (vl v) -> 0 < y < B64 ->
@@ -34,47 +35,63 @@ Proof.
     assert (lval (vl v) * 1 <= lval (vl v) * y) by (apply Z.mul_le_mono_nonneg_l; lia). lia.
 Qed.
 
+(** a multi-limb [large_mul] builds its result in a fresh vector: capacity at least BIGINT_LIMBS *)
+Lemma large_mul_cap_ge c L v y v' :
+  limbs_ok (vl v) -> limbs_ok y -> vl v <> [] -> 2 <= zlen y ->
+  large_mul c L v y = Some v' -> BIGINT_LIMBS L <= vcap v'.
+Proof.
+  intros Hv Hy Hne H2. rewrite large_mul_unfold.
+  destruct y as [|y0 [|y1 ys]]; try (rewrite ?zlen_cons, ?(@zlen_nil Z) in H2; lia).
+  intros H. apply long_mul_spec in H; try assumption. tauto.
+Qed.
+
 Lemma pow_large_loop_normalized c T L : forall fuel v e v1 e1,
   0 < LARGE_POW5_STEP T -> limbs_ok (LARGE_POW5 T) -> lval (LARGE_POW5 T) = 5 ^ LARGE_POW5_STEP T ->
   2 <= zlen (LARGE_POW5 T) ->
   limbs_ok (vl v) -> 0 < lval (vl v) -> is_normalized (vl v) = true ->
-  pow_large_loop c T L fuel v e = Some (v1, e1) -> is_normalized (vl v1) = true.
+  pow_large_loop c T L fuel v e = Some (v1, e1) ->
+  is_normalized (vl v1) = true /\ (BIGINT_LIMBS L <= vcap v -> BIGINT_LIMBS L <= vcap v1).
 Proof.
   induction fuel as [|fuel IH]; intros v e v1 e1 Hs HL HV H2 Hv Hp Hn; rewrite pow_large_loop_eq;
     destruct (LARGE_POW5_STEP T <=? e) eqn:E.
   - discriminate.
-  - intros H. inversion H; subst v1 e1. exact Hn.
+  - intros H. inversion H; subst v1 e1. split; [exact Hn|auto].
   - destruct (large_mul c L v (LARGE_POW5 T)) as [v'|] eqn:Em; [|discriminate].
+    pose proof (large_mul_cap_ge c L v _ v' Hv HL (lval_pos_nonempty _ Hp) H2 Em) as Cg.
     apply large_mul_spec in Em; try assumption; [|left; apply lval_pos_nonempty; exact Hp].
     destruct Em as [V [O [N _]]].
     assert (P5 : 0 < 5 ^ LARGE_POW5_STEP T) by (apply Z.pow_pos_nonneg; lia).
     intros H. apply IH in H; try assumption.
+    + destruct H as [H1 H3]. split; [exact H1|intros _; apply H3; exact Cg].
     + rewrite V, HV. apply Z.mul_pos_pos; assumption.
     + apply N. lia.
-  - intros H. inversion H; subst v1 e1. exact Hn.
+  - intros H. inversion H; subst v1 e1. split; [exact Hn|auto].
 Qed.
 
-Lemma pow_small_loop_normalized c : forall fuel v e v1 e1,
+Lemma pow_small_loop_normalized c K : forall fuel v e v1 e1,
   limbs_ok (vl v) -> 0 < lval (vl v) -> is_normalized (vl v) = true ->
-  pow_small_loop c fuel v e = Some (v1, e1) -> is_normalized (vl v1) = true.
+  pow_small_loop c fuel v e = Some (v1, e1) ->
+  is_normalized (vl v1) = true /\ (K <= vcap v -> K <= vcap v1).
 Proof.
   assert (P5 : 0 < 5 ^ 27 < B64) by (split; vm_compute; reflexivity).
   induction fuel as [|fuel IH]; intros v e v1 e1 Hv Hp Hn; rewrite pow_small_loop_eq;
     destruct (small_step <=? e) eqn:E.
   - discriminate.
-  - intros H. inversion H; subst v1 e1. exact Hn.
+  - intros H. inversion H; subst v1 e1. split; [exact Hn|auto].
   - destruct (small_mul c v max_native5) as [v'|] eqn:Em; [|discriminate].
     rewrite max_native5_eq in Em.
     pose proof (small_mul_normalized c v _ v' Hv Hn Hp P5 Em) as N.
-    apply small_mul_spec in Em; try assumption; [|lia]. destruct Em as [V [O _]].
-    intros H. apply IH in H; try assumption. rewrite V. apply Z.mul_pos_pos; lia.
-  - intros H. inversion H; subst v1 e1. exact Hn.
+    apply small_mul_spec in Em; try assumption; [|lia]. destruct Em as [V [O [_ [_ [_ [G _]]]]]].
+    intros H. apply IH in H; try assumption; [|rewrite V; apply Z.mul_pos_pos; lia].
+    destruct H as [H1 H3]. split; [exact H1|intros HK; apply H3; lia].
+  - intros H. inversion H; subst v1 e1. split; [exact Hn|auto].
 Qed.
 
 Theorem pow5_normalized c T L b v e v' :
   pow5_tables_ok T = true -> pow5_large_ok T L = true ->
   limbs_ok (vl v) -> 0 < lval (vl v) -> 0 <= e -> is_normalized (vl v) = true ->
-  pow5 c T L b v e = Ok (Some v') -> is_normalized (vl v') = true.
+  pow5 c T L b v e = Ok (Some v') ->
+  is_normalized (vl v') = true /\ (BIGINT_LIMBS L <= vcap v -> BIGINT_LIMBS L <= vcap v').
 Proof.
   intros HT HK Hv Hp He Hn. unfold pow5. intros H.
   destruct (pow5_tables_ok_inv T HT) as [T1 [T2 [T3 [T4 T5]]]].
@@ -82,43 +99,49 @@ Proof.
   apply obind_Some in H. destruct H as [[v1 e1] [H1 H]].
   apply obind_Some in H. destruct H as [[v2 e2] [H2 H]].
   assert (S1 : lval (vl v1) * 5 ^ e1 = lval (vl v) * 5 ^ e /\ 0 <= e1 /\
-               limbs_ok (vl v1) /\ 0 < lval (vl v1) /\ is_normalized (vl v1) = true).
+               limbs_ok (vl v1) /\ 0 < lval (vl v1) /\ is_normalized (vl v1) = true /\
+               (BIGINT_LIMBS L <= vcap v -> BIGINT_LIMBS L <= vcap v1)).
   { destruct (compact c) eqn:Ec.
-    - inversion H1; subst v1 e1. repeat split; try assumption; lia.
+    - inversion H1; subst v1 e1. repeat split; try assumption; try lia; auto.
     - destruct (LARGE_POW5_STEP T <=? 0) eqn:E0; [discriminate|].
       apply Ok_inj in H1.
-      pose proof (pow_large_loop_normalized c T L _ _ _ _ _ T1 T3 T2 ltac:(lia) Hv Hp Hn H1) as N1.
+      destruct (pow_large_loop_normalized c T L _ _ _ _ _ T1 T3 T2 ltac:(lia) Hv Hp Hn H1) as [N1 G1].
       apply pow_large_loop_spec in H1; try assumption. intuition lia. }
-  destruct S1 as [V1 [He1 [O1 [P1 N1]]]].
+  destruct S1 as [V1 [He1 [O1 [P1 [N1 G1]]]]].
   apply Ok_inj in H2.
-  pose proof (pow_small_loop_normalized c _ _ _ _ _ O1 P1 N1 H2) as N2.
+  destruct (pow_small_loop_normalized c (BIGINT_LIMBS L) _ _ _ _ _ O1 P1 N1 H2) as [N2 G2].
   apply pow_small_loop_spec in H2; try assumption.
   destruct H2 as [V2 [He2 [O2 [P2 _]]]].
   destruct (e2 =? 0) eqn:E2; cbn [negb] in H.
-  - inversion H; subst v'. exact N2.
+  - inversion H; subst v'. split; [exact N2|auto].
   - rewrite int_pow5_fast in H; [|lia|intros _; split; assumption].
     cbn [bind] in H. apply Ok_inj in H.
     pose proof (pow5_small_bound e2 ltac:(lia)).
-    apply (small_mul_normalized c v2 (5 ^ e2) v'); assumption.
+    split; [apply (small_mul_normalized c v2 (5 ^ e2) v'); assumption|].
+    apply small_mul_spec in H; try assumption; [|lia]. destruct H as [_ [_ [_ [_ [_ [G _]]]]]].
+    intros HK. specialize (G1 HK). specialize (G2 G1). lia.
 Qed.
 
-(** ** 2. Stack back-end: [pow5] and [shl] succeed when the result fits *)
+(** ** 2. [pow5] and [shl] succeed when the result fits BIGINT_LIMBS limbs (both back-ends) *)
 
-Theorem pow5_stack_ok c T L b v e :
-  alloc c = false -> pow5_tables_ok T = true -> pow5_large_ok T L = true ->
+Theorem pow5_fits_ok c T L b v e :
+  pow5_tables_ok T = true -> pow5_large_ok T L = true ->
   limbs_ok (vl v) -> is_normalized (vl v) = true -> 0 < lval (vl v) -> 0 <= e ->
-  vcap v = BIGINT_LIMBS L -> zlen (vl v) <= vcap v ->
+  BIGINT_LIMBS L <= vcap v -> (alloc c = false -> vcap v = BIGINT_LIMBS L) -> zlen (vl v) <= vcap v ->
   lval (vl v) * 5 ^ e < B64 ^ BIGINT_LIMBS L ->
   exists v', pow5 c T L b v e = Ok (Some v') /\
     lval (vl v') = lval (vl v) * 5 ^ e /\ limbs_ok (vl v') /\ is_normalized (vl v') = true /\
-    vcap v' = BIGINT_LIMBS L /\ zlen (vl v') <= vcap v'.
+    BIGINT_LIMBS L <= vcap v' /\ (alloc c = false -> vcap v' = BIGINT_LIMBS L) /\
+    zlen (vl v') <= vcap v'.
 Proof.
-  intros Ha HT HK Hv Hn Hp He Hc1 Hc2 Hfit.
+  intros HT HK Hv Hn Hp He Hc0 Hc1 Hc2 Hfit.
   destruct (pow5_total c T L b v e ltac:(auto) Hv Hp He ltac:(auto)) as [o [E S]].
   destruct o as [v'|].
-  - exists v'. destruct S as [V [O C]]. destruct (C Ha) as [Ca Cb].
-    split; [exact E|]. split; [exact V|]. split; [exact O|].
-    split; [apply (pow5_normalized c T L b v e v'); assumption|]. split; assumption.
+  - exists v'. destruct S as [V [O C]].
+    destruct (pow5_normalized c T L b v e v' HT HK Hv Hp He Hn E) as [N G].
+    pose proof (pow5_spec c T L b v e v' ltac:(auto) Hv Hp He E) as (_ & _ & I).
+    split; [exact E|]. split; [exact V|]. split; [exact O|]. split; [exact N|].
+    split; [apply G; exact Hc0|]. split; [intros Ha; apply (C Ha)|apply I; exact Hc2].
   - destruct S as [_ S]. lia.
 Qed.
 
@@ -138,6 +161,96 @@ Proof.
   - exists v'. destruct (Hs v' eq_refl) as (V & O & C & _ & N).
     split; [exact Ho|]. split; [exact V|]. split; [exact O|]. split; [apply N; exact Hnz|apply C; exact Ha].
   - pose proof (proj1 (Hnone Ha Hne Hnz Hc) eq_refl). lia.
+Qed.
+
+(** a normalised number below B64^K has at most K limbs *)
+Lemma norm_len_le l K :
+  limbs_ok l -> is_normalized l = true -> l <> [] -> 0 <= K -> lval l < B64 ^ K -> zlen l <= K.
+Proof.
+  intros Hl Hn Hne HK Hlt. pose proof (normalized_lower_bound l Hl Hn Hne) as LB.
+  pose proof (pow_B64_lt_inv (zlen l - 1) K (lval l) HK LB Hlt). lia.
+Qed.
+
+(** heap back-end: [shl] only fails through the capacity test of [shl_limbs], which is passed when
+    the result fits K limbs and the capacity is at least K *)
+Theorem shl_heap_ok c L b v n K :
+  alloc c = true -> LIMB_BITS L = 64 -> 0 <= n < 2 ^ 64 ->
+  limbs_ok (vl v) -> is_normalized (vl v) = true -> 0 < lval (vl v) ->
+  0 <= K < 2 ^ 63 -> K <= vcap v ->
+  lval (vl v) * 2 ^ n < B64 ^ K ->
+  exists v', shl c L b v n = Ok (Some v') /\
+    lval (vl v') = lval (vl v) * 2 ^ n /\ limbs_ok (vl v') /\ is_normalized (vl v') = true /\
+    K <= vcap v'.
+Proof.
+  intros Ha HL Hn Hv Hnz Hp HK Hcap Hfit.
+  change (2 ^ 64) with 18446744073709551616 in Hn. change (2 ^ 63) with 9223372036854775808 in HK.
+  assert (Hne : vl v <> []) by (apply lval_pos_nonempty; exact Hp).
+  unfold shl. rewrite HL.
+  pose proof (Z.div_mod n 64 ltac:(lia)) as Hdm.
+  pose proof (Z.mod_pos_bound n 64 ltac:(lia)) as Hrem.
+  assert (Hdiv : 0 <= n / 64) by (apply Z.div_pos; lia).
+  assert (Hdiv' : n / 64 < 288230376151711744) by (apply Z.div_lt_upper_bound; lia).
+  set (rem := n mod 64) in *. set (d := n / 64) in *.
+  assert (H2n : 2 ^ n = 2 ^ rem * B64 ^ d).
+  { rewrite B64_pow by lia. rewrite <- BigintFacts2.pow2_split by lia. f_equal. lia. }
+  assert (HBd : 0 < B64 ^ d) by (apply B64_pow_pos; lia).
+  assert (H2r : 0 < 2 ^ rem) by (apply pow2_gt0; lia).
+  (* the limb-shift stage, for any normalised non-empty v1 with  lval v1 * B64^d < B64^K *)
+  assert (Stage : forall v1, limbs_ok (vl v1) -> is_normalized (vl v1) = true -> 0 < lval (vl v1) ->
+            K <= vcap v1 -> lval (vl v1) * B64 ^ d < B64 ^ K ->
+            exists v', (if negb (d =? 0) then shl_limbs b v1 d else Ok (Some v1)) = Ok (Some v') /\
+              lval (vl v') = lval (vl v1) * B64 ^ d /\ limbs_ok (vl v') /\
+              is_normalized (vl v') = true /\ K <= vcap v').
+  { intros v1 O1 N1 P1 C1 F1.
+    assert (Hne1 : vl v1 <> []) by (apply lval_pos_nonempty; exact P1).
+    assert (Hlen : d + zlen (vl v1) <= K).
+    { pose proof (normalized_lower_bound _ O1 N1 Hne1) as LB.
+      assert (B64 ^ (zlen (vl v1) - 1 + d) <= lval (vl v1) * B64 ^ d).
+      { pose proof (zlen_pos_nonempty _ Hne1).
+        rewrite Z.pow_add_r by lia. apply Z.mul_le_mono_nonneg_r; lia. }
+      pose proof (pow_B64_lt_inv (zlen (vl v1) - 1 + d) K _ ltac:(lia) H F1). lia. }
+    destruct (shl_stage2 b v1 d Hdiv ltac:(change (2 ^ 64) with 18446744073709551616; lia) O1)
+      as (o & Ho & Hs & Hnone).
+    destruct o as [v'|].
+    - exists v'. destruct (Hs v' eq_refl) as (V & O & C & _ & N).
+      split; [exact Ho|]. split; [exact V|]. split; [exact O|]. split; [apply N; exact N1|lia].
+    - destruct (proj1 Hnone eq_refl) as [_ Hbad]. lia. }
+  destruct (Z.eqb_spec rem 0) as [Hr0|Hr0]; cbn [negb].
+  - rewrite obind_ok_some.
+    destruct (Stage v Hv Hnz Hp Hcap) as (v' & E & V & O & N & C).
+    { rewrite H2n, Hr0 in Hfit. change (2 ^ 0) with 1 in Hfit. lia. }
+    exists v'. split; [exact E|]. split; [|auto].
+    rewrite V, H2n, Hr0. change (2 ^ 0) with 1. ring.
+  - destruct (shl_bits_full c L b v rem HL ltac:(lia) Hv) as (o1 & Ho1 & Hs1 & Hh & _).
+    rewrite Ho1. destruct o1 as [v1|]; [|exfalso; apply (Hh Ha); reflexivity].
+    rewrite obind_ok_some.
+    destruct (Hs1 v1 eq_refl) as (V1 & O1 & _ & _ & C1 & N1).
+    specialize (C1 Ha). specialize (N1 Hnz).
+    assert (G1 : vcap v <= vcap v1).
+    { rewrite C1. destruct (negb (shl_carry (vl v) rem =? 0) && (zlen (vl v) =? vcap v)); [|lia].
+      apply grow_ge. }
+    destruct (Stage v1 O1 N1 ltac:(rewrite V1; apply Z.mul_pos_pos; lia) ltac:(lia))
+      as (v' & E & V & O & N & C).
+    { rewrite V1. rewrite H2n in Hfit. lia. }
+    exists v'. split; [exact E|]. split; [|auto]. rewrite V, V1, H2n. ring.
+Qed.
+
+(** both back-ends *)
+Theorem shl_fits_ok c L b v n K :
+  LIMB_BITS L = 64 -> 0 <= n < 2 ^ 64 ->
+  limbs_ok (vl v) -> is_normalized (vl v) = true -> 0 < lval (vl v) ->
+  0 <= K < 2 ^ 63 -> K <= vcap v -> (alloc c = false -> vcap v = K) -> zlen (vl v) <= vcap v ->
+  lval (vl v) * 2 ^ n < B64 ^ K ->
+  exists v', shl c L b v n = Ok (Some v') /\
+    lval (vl v') = lval (vl v) * 2 ^ n /\ limbs_ok (vl v') /\ is_normalized (vl v') = true /\
+    K <= vcap v'.
+Proof.
+  intros HL Hn Hv Hnz Hp HK Hc0 Hc1 Hc2 Hfit. destruct (alloc c) eqn:Ha.
+  - apply shl_heap_ok; assumption.
+  - specialize (Hc1 eq_refl).
+    destruct (shl_stack_ok c L b v n Ha HL Hn Hv Hnz Hp Hc2 ltac:(lia) ltac:(rewrite Hc1; exact Hfit))
+      as (v' & E & V & O & N & C).
+    exists v'. repeat split; try assumption. lia.
 Qed.
 
 (** `Bigint::pow(2, e)` is the shift *)
@@ -190,7 +303,6 @@ Variable c : config.
 Variable T : tables.
 Variable L : limits.
 Variable b : build.
-Hypothesis Ha : alloc c = false.
 Hypothesis HT : pow5_tables_ok T = true.
 Hypothesis HK : pow5_large_ok T L = true.
 Hypothesis HL : LIMB_BITS L = 64.
@@ -199,7 +311,8 @@ Hypothesis Hcap : 2 <= BIGINT_LIMBS L < 2 ^ 63.
 Theorem scale_digits_ok Mh e bigmant exponent N :
   0 < Mh < 2 ^ 64 -> - 2 ^ 30 <= e < 2 ^ 30 -> - 2 ^ 30 <= exponent < 0 ->
   limbs_ok (vl bigmant) -> is_normalized (vl bigmant) = true -> lval (vl bigmant) = N -> 0 < N ->
-  vcap bigmant = BIGINT_LIMBS L -> zlen (vl bigmant) <= vcap bigmant ->
+  BIGINT_LIMBS L <= vcap bigmant -> (alloc c = false -> vcap bigmant = BIGINT_LIMBS L) ->
+  zlen (vl bigmant) <= vcap bigmant ->
   let beta := e - exponent in
   N * 2 ^ Z.max 0 (- beta) < B64 ^ BIGINT_LIMBS L ->
   Mh * 5 ^ (- exponent) * 2 ^ Z.max 0 beta < B64 ^ BIGINT_LIMBS L ->
@@ -208,7 +321,7 @@ Theorem scale_digits_ok Mh e bigmant exponent N :
     vcompare (vl real_digits) (vl theor_digits)
     = (N * 2 ^ Z.max 0 (- beta) ?= Mh * 5 ^ (- exponent) * 2 ^ Z.max 0 beta).
 Proof.
-  intros HMh He Hex Hbo Hbn HbN HN Hbc Hbl beta Hfr Hft.
+  intros HMh He Hex Hbo Hbn HbN HN Hbc0 Hbc Hbl beta Hfr Hft.
   change (2 ^ 30) with 1073741824 in He, Hex.
   change (2 ^ 64) with 18446744073709551616 in HMh.
   assert (HMh' : 0 <= Mh < 2 ^ 64) by (change (2 ^ 64) with 18446744073709551616; lia).
@@ -230,8 +343,8 @@ Proof.
   assert (Hfit5 : lval (vl t0) * 5 ^ k < B64 ^ BIGINT_LIMBS L).
   { rewrite V0. assert (Mh * 5 ^ k * 1 <= Mh * 5 ^ k * 2 ^ Z.max 0 beta)
       by (apply Z.mul_le_mono_nonneg_l; [apply Z.mul_nonneg_nonneg; lia|lia]). lia. }
-  destruct (pow5_stack_ok c T L b t0 k Ha HT HK O0 N0 ltac:(lia) ltac:(lia) C0 Z0 Hfit5)
-    as (t1 & E1 & V1 & O1 & N1 & C1 & Z1).
+  destruct (pow5_fits_ok c T L b t0 k HT HK O0 N0 ltac:(lia) ltac:(lia) ltac:(lia) ltac:(auto) Z0 Hfit5)
+    as (t1 & E1 & V1 & O1 & N1 & G1 & C1 & Z1).
   rewrite E1. cbn [bind unwrap]. rewrite V0 in V1.
   assert (Hp1 : 0 < lval (vl t1)) by (rewrite V1; apply Z.mul_pos_pos; lia).
   destruct (0 <? beta) eqn:Eb.
@@ -239,9 +352,10 @@ Proof.
     rewrite as_u32_id' by lia. rewrite bigint_pow_2. rewrite as_usize_id' by lia.
     replace (Z.max 0 beta) with beta in * by lia.
     replace (Z.max 0 (- beta)) with 0 in * by lia.
-    destruct (shl_stack_ok c L b t1 beta Ha HL ltac:(change (2 ^ 64) with 18446744073709551616; lia)
-                O1 N1 Hp1 Z1 ltac:(rewrite C1; apply Hcap)
-                ltac:(rewrite V1, C1; exact Hft)) as (t2 & E2 & V2 & O2 & N2 & _).
+    destruct (shl_fits_ok c L b t1 beta (BIGINT_LIMBS L) HL
+                ltac:(change (2 ^ 64) with 18446744073709551616; lia)
+                O1 N1 Hp1 ltac:(lia) G1 C1 Z1 ltac:(rewrite V1; exact Hft))
+      as (t2 & E2 & V2 & O2 & N2 & _).
     rewrite E2. cbn [bind unwrap]. exists t2, bigmant. split; [reflexivity|].
     rewrite vcompare_spec by assumption. rewrite V2, V1, HbN. change (2 ^ 0) with 1.
     rewrite Z.mul_1_r. reflexivity.
@@ -251,9 +365,10 @@ Proof.
       rewrite as_u32_id' by lia. rewrite bigint_pow_2. rewrite as_usize_id' by lia.
       replace (Z.max 0 beta) with 0 in * by lia.
       replace (Z.max 0 (- beta)) with (- beta) in * by lia.
-      destruct (shl_stack_ok c L b bigmant (- beta) Ha HL ltac:(change (2 ^ 64) with 18446744073709551616; lia)
-                  Hbo Hbn ltac:(lia) Hbl ltac:(rewrite Hbc; apply Hcap)
-                  ltac:(rewrite HbN, Hbc; exact Hfr)) as (r2 & E2 & V2 & O2 & N2 & _).
+      destruct (shl_fits_ok c L b bigmant (- beta) (BIGINT_LIMBS L) HL
+                  ltac:(change (2 ^ 64) with 18446744073709551616; lia)
+                  Hbo Hbn ltac:(lia) ltac:(lia) Hbc0 Hbc Hbl ltac:(rewrite HbN; exact Hfr))
+        as (r2 & E2 & V2 & O2 & N2 & _).
       rewrite E2. cbn [bind unwrap]. exists t1, r2. split; [reflexivity|].
       rewrite vcompare_spec by assumption. rewrite V2, V1, HbN. change (2 ^ 0) with 1.
       rewrite Z.mul_1_r. reflexivity.
@@ -302,8 +417,8 @@ Qed.
 Lemma LIMITS_cap : 2 <= BIGINT_LIMBS LIMITS < 2 ^ 63.
 Proof. vm_compute. split; congruence. Qed.
 
-Definition scale_digits_ok_TABLES c b (Ha : alloc c = false) :=
-  scale_digits_ok c TABLES LIMITS b Ha pow5_tables_ok_TABLES pow5_large_ok_TABLES eq_refl LIMITS_cap.
+Definition scale_digits_ok_TABLES c b :=
+  scale_digits_ok c TABLES LIMITS b pow5_tables_ok_TABLES pow5_large_ok_TABLES eq_refl LIMITS_cap.
 
 (** 9007199254740993 * 10^-16 against the midpoint (2 * 2^52 + 1) * 2^-53 * ... of 0.9007...:
     a concrete run of the scaling code: beta < 0, the real digits are shifted *)
@@ -317,7 +432,7 @@ Example scale_digits_ex :
 Proof. vm_compute. reflexivity. Qed.
 
 Print Assumptions pow5_normalized.
-Print Assumptions pow5_stack_ok.
-Print Assumptions shl_stack_ok.
+Print Assumptions pow5_fits_ok.
+Print Assumptions shl_fits_ok.
 Print Assumptions scale_digits_ok.
 Print Assumptions scaled_compare_mid.
